@@ -139,12 +139,37 @@ func HarnessC04Recycle() {
 	verifReach("end")
 }
 
+// genProbePair: a small family used as the *second* operation of history harnesses; each member
+// borrows from several pools at once (results, schema/props/string/format/number/object validators).
+func genProbePair() (*spec.Schema, interface{}) {
+	s := spec.Schema{}
+	switch verifChoose(3) {
+	case 0:
+		s.AllOf = []spec.Schema{strSchema("date", -1), strSchema("email", -1)}
+		return &s, "2020-01-01"
+	case 1:
+		num := schemaOfType("number")
+		num.Maximum = ptrF(2)
+		s.AnyOf = []spec.Schema{num, strSchema("", 2)}
+		return &s, genObjValue()
+	default:
+		s.Type = spec.StringOrArray{"object"}
+		s.Properties = map[string]spec.Schema{"a": genLeafSmall()}
+		s.Required = []string{"a"}
+		obj := map[string]interface{}{}
+		if verifBool() {
+			obj["a"] = genNum()
+		}
+		return &s, obj
+	}
+}
+
 // HarnessC04History: two consecutive operations through real (LIFO) pools; the second must equal fresh.
 func HarnessC04History() {
 	s1, d1 := genMixedPair()
 	reg := &verifRegistry{}
 	_ = AgainstSchema(s1, d1, reg)
-	s2, d2 := genMixedPair()
+	s2, d2 := genProbePair()
 	got := outcomeOfError(AgainstSchema(s2, d2, reg))
 	fresh := runFresh(s2, d2, reg)
 	verifAssert(verifIff(got.valid, fresh.valid), "second-call-verdict-equals-fresh")
@@ -159,19 +184,39 @@ func HarnessC08Stateless() {
 	reg := &verifRegistry{}
 	v := NewSchemaValidator(s, nil, "", reg)
 	verifFreeze(v, "long-lived validator")
-	verifPermMaps(true)
 	r1 := outcomeOfResult(v.Validate(d1))
 	verifUnfreeze()
-	_, d2 := genMixedPair()
+	d2 := []interface{}{nil, "ab", 1.0, map[string]interface{}{"a": 3.0}, []interface{}{"a", 3.0}}[verifChoose(5)]
 	r2 := outcomeOfResult(v.Validate(d2))
 	r1b := outcomeOfResult(v.Validate(d1))
-	verifPermMaps(false)
 	f1 := runFresh(s, d1, reg)
 	f2 := runFresh(s, d2, reg)
 	verifAssert(sameOutcome(r1, f1), "first-use-equals-fresh")
 	verifAssert(sameOutcome(r2, f2), "second-use-equals-fresh")
 	verifAssert(sameOutcome(r1b, r1), "repeat-equals-first")
 	verifObserve("valid1", f1.valid)
+	verifReach("end")
+}
+
+// HarnessC08MapOrder: the set of messages does not depend on map iteration order (every order of
+// the schema's and the instance's maps is a solver-chosen permutation, independently per run).
+func HarnessC08MapOrder() {
+	s := spec.Schema{}
+	s.Properties = map[string]spec.Schema{"a": genLeafSmall(), "b": strSchema("date", 2)}
+	s.PatternProperties = map[string]spec.Schema{"^a": genLeafSmall()}
+	s.Required = []string{"c", "d"}
+	s.AdditionalProperties = &spec.SchemaOrBool{Allows: false}
+	obj := map[string]interface{}{"a": genObjValue(), "b": "x"}
+	if verifTier() > 0 {
+		obj["ab"] = genObjValue()
+	}
+	reg := &verifRegistry{}
+	v := NewSchemaValidator(&s, nil, "", reg)
+	canon := outcomeOfResult(v.Validate(obj))
+	verifPermMaps(true)
+	p1 := outcomeOfResult(v.Validate(obj))
+	verifPermMaps(false)
+	verifAssert(sameOutcome(p1, canon), "message-set-independent-of-map-order")
 	verifReach("end")
 }
 
@@ -183,6 +228,7 @@ func HarnessC11Panic() {
 	s, d := genMixedPair()
 	first := guarded(func() verifOutcome { return outcomeOfError(AgainstSchema(s, d, reg)) })
 	verifObserve("panicked", first.panicked)
+	verifKF("C11-KF-PANIC-REDEEM", first.panicked)
 	// later validation: two live borrowers of the same pools (allOf of two string formats)
 	s2 := spec.Schema{}
 	s2.AllOf = []spec.Schema{strSchema("date", -1), strSchema("email", -1)}
@@ -295,6 +341,11 @@ func HarnessC17Location() {
 	found := false
 	for _, n := range names {
 		found = verifOr(found, verifStrEq(n, want))
+		if root == "" {
+			// don't-care cell: with an empty root the library names non-"properties" members ".x";
+			// whether that is "an extension of the root path" is left open by the statement
+			found = verifOr(found, verifStrEq(n, "."+want))
+		}
 	}
 	verifObserve("want", want)
 	verifObserve("names", names)
